@@ -11,8 +11,8 @@ NOT_APPLICABLE = {}
 
 PROPS = {
     "C01": dict(
-        pkg="c01",
-        technique="property-based round-trip testing (rapid) + differential against an independent PackBits/Annex G reader + exhaustive small-string enumeration",
+        pkg="c01", fuzz=dict(target="FuzzProp"),
+        technique="property-based round-trip testing (rapid) + differential against an independent PackBits/Annex G reader + exhaustive small-string enumeration; thorough adds coverage-guided native Go fuzzing of the same generator and check (rapid.MakeFuzz)",
         level_text="Exploration: seeded rapid generators over FrameInfo x run-length-grammar contents, an exhaustive sweep of all <=10-byte strings over 3 symbols, and fixed 65535x1 strips; each case is checked by round trip, header validity and an independent reader.",
         level_note="Trusts harness/ref/rleref and the Go runtime; absence of violations outside the explored cases is not shown.",
         rule=("rapid-generated RLE frames: FrameInfo (BitsAllocated 8/16/32 x SPP 1/3 x planar 0/1, Rows x Cols) and per-byte-plane "
@@ -22,11 +22,11 @@ PROPS = {
               "64-bit hash of the case descriptor."),
         assumptions=COMMON_ASSUME + ["harness/ref/rleref (independent PackBits/Annex G reader) is correct; it is exercised against every case"],
         quick=dict(shards=16, checks=1500, extra=["TestQuota", "TestExhaustive"], timeout=600),
-        thorough=dict(shards=16, checks=40000, extra=["TestQuota", "TestExhaustive"], timeout=3000),
+        thorough=dict(shards=16, checks=120000, extra=["TestQuota", "TestExhaustive"], timeout=3000, fuzztime=180),
     ),
     "C02": dict(
-        pkg="c02",
-        technique="property-based round-trip testing (rapid) over images x precision x predictor, plus exhaustive enumeration of tiny images and of all 65536 difference values",
+        pkg="c02", fuzz=dict(target="FuzzProp"),
+        technique="property-based round-trip testing (rapid) over images x precision x predictor, plus exhaustive enumeration of tiny images and of all 65536 difference values; thorough adds coverage-guided native Go fuzzing of the same generator and check (rapid.MakeFuzz)",
         level_text="Exploration: seeded rapid generators over geometry classes, precision 2..16, selectors 0..7 and SV1, content classes aimed at extreme differences (two-level, alternating extremes, category-16 values); exhaustive sub-domains for tiny images and for the difference coder.",
         level_note="Round trip through the library's own encoder and decoder only (conformance is C13); trusts the Go runtime.",
         rule=("rapid-generated (image, selector) pairs; image = geometry class x components {1,3} x P 2..16 x content class (noise, twolevel, "
@@ -34,11 +34,11 @@ PROPS = {
               "width*height >= 2. Distinct = 64-bit hash of the case descriptor. Labels dht-cat16 / dht-len16 / stuffed are read from the emitted stream."),
         assumptions=COMMON_ASSUME,
         quick=dict(shards=16, checks=1500, extra=["TestQuota", "TestExhaustiveDiff", dict(run="TestExhaustive", shards=4), dict(run="TestBig", shards=8)], timeout=600),
-        thorough=dict(shards=16, checks=25000, extra=["TestQuota", "TestExhaustiveDiff", dict(run="TestExhaustive", shards=16), dict(run="TestBig", shards=8)], timeout=3000),
+        thorough=dict(shards=16, checks=25000, extra=["TestQuota", "TestExhaustiveDiff", dict(run="TestExhaustive", shards=16), dict(run="TestBig", shards=8)], timeout=3000, fuzztime=180),
     ),
     "C13": dict(
-        pkg="c13",
-        technique="differential property-based testing (rapid) against an independent T.81 Annex H encoder and decoder, both directions",
+        pkg="c13", fuzz=dict(target="FuzzProp"),
+        technique="differential property-based testing (rapid) against an independent T.81 Annex H encoder and decoder, both directions; thorough adds coverage-guided native Go fuzzing of the same generator and check (rapid.MakeFuzz)",
         level_text="Exploration: direction A feeds every library encoder entry (predictors 0-7, SV1 package, .57/.70 registry codecs) to the reference decoder; direction B feeds reference-encoder streams over predictor x precision x Td assignment x table kind (standard, optimal, random canonical) x segment layout to the library decoders.",
         level_note="Trusts harness/ref/t81 (self-tested encoder<->decoder, written from the standard) and the Go runtime.",
         rule=("rapid-generated differential experiments: images as in C02; direction A (library encoder -> ref decoder) or B (ref encoder -> library "
@@ -46,135 +46,135 @@ PROPS = {
               "Non-trivial: image has >= 2 rows, >= 2 columns and >= 2 distinct values (edge rules exercised). Distinct = hash of the case descriptor."),
         assumptions=COMMON_ASSUME + ["harness/ref/t81 implements T.81 Annex H correctly (checked by its own round-trip self-test and by agreement with the library on predictor 1)"],
         quick=dict(shards=16, checks=1200, extra=["TestQuota", dict(run="TestBig", shards=8)], timeout=600),
-        thorough=dict(shards=16, checks=25000, extra=["TestQuota", dict(run="TestBig", shards=8)], timeout=3000),
+        thorough=dict(shards=16, checks=200000, extra=["TestQuota", dict(run="TestBig", shards=8)], timeout=3000, fuzztime=180),
     ),
     "C03": dict(
-        pkg="c03",
-        technique="property-based round-trip testing (rapid) with run-mode / range-wrap oriented generators, plus exhaustive enumeration of tiny images",
+        pkg="c03", fuzz=dict(target="FuzzProp"),
+        technique="property-based round-trip testing (rapid) with run-mode / range-wrap oriented generators, plus exhaustive enumeration of tiny images; thorough adds coverage-guided native Go fuzzing of the same generator and check (rapid.MakeFuzz)",
         level_text="Exploration: seeded rapid generators over geometry x precision 2..16 x components {1,3} x content classes (two-level, runs, sparse outliers, width 1, noise); quota cases for long runs (run index), context reset, every precision; exhaustive tiny images at P=2 and P=4.",
         level_note="Round trip through the library's own encoder/decoder; labels (escape code, context reset, interruption type) are read from the stream by the independent T.87 decoder. Conformance itself is C14.",
         rule=("rapid-generated images: geometry classes (tiny, block edges, strips), components {1,3}, P 2..16, content class; small images literal. "
               "Non-trivial: two equal horizontal neighbours (run mode reachable) or a neighbour jump >= 2^(P-1) (modulo-RANGE wrap exercised). Distinct = hash of the case."),
         assumptions=COMMON_ASSUME,
         quick=dict(shards=16, checks=1200, extra=["TestQuota", dict(run="TestExhaustive", shards=4), dict(run="TestFlat", shards=8), dict(run="TestBig", shards=8)], timeout=600),
-        thorough=dict(shards=16, checks=25000, extra=["TestQuota", dict(run="TestExhaustive", shards=16), dict(run="TestFlat", shards=16), dict(run="TestBig", shards=8)], timeout=3000),
+        thorough=dict(shards=16, checks=75000, extra=["TestQuota", dict(run="TestExhaustive", shards=16), dict(run="TestFlat", shards=16), dict(run="TestBig", shards=8)], timeout=3000, fuzztime=180),
     ),
     "C07": dict(
-        pkg="c07",
-        technique="property-based testing (rapid) with a per-sample error-bound oracle, plus a sweep over every (precision, NEAR) pair",
+        pkg="c07", fuzz=dict(target="FuzzProp"),
+        technique="property-based testing (rapid) with a per-sample error-bound oracle, plus a sweep over every (precision, NEAR) pair; thorough adds coverage-guided native Go fuzzing of the same generator and check (rapid.MakeFuzz)",
         level_text="Exploration: seeded rapid generators over images x NEAR (emphasis 0..3 and maximum) with NEAR-aware content (samples within NEAR of the range ends, ramps of step 2*NEAR+1 / 2*NEAR, runs disturbed by NEAR and NEAR+1), and a deterministic sweep visiting every NEAR at every precision.",
         level_note="Oracle is the statement's own bound |dec-src| <= NEAR, dec <= MAXVAL, reported NEAR and geometry; trusts only the Go runtime.",
         rule=("rapid-generated (image, NEAR) with P 2..16, NEAR in 0..min(255,MAXVAL/2); sweep of all 2250 (P,NEAR) pairs. Non-trivial: NEAR = 0, or NEAR >= 1 and at least one "
               "decoded sample differs from its source (the quantiser acted). Distinct = hash of the case."),
         assumptions=COMMON_ASSUME,
         quick=dict(shards=16, checks=1200, extra=["TestQuota", dict(run="TestNearSweep", shards=4), dict(run="TestBig", shards=8)], timeout=600),
-        thorough=dict(shards=16, checks=25000, extra=["TestQuota", dict(run="TestNearSweep", shards=16), dict(run="TestBig", shards=8)], timeout=3000),
+        thorough=dict(shards=16, checks=100000, extra=["TestQuota", dict(run="TestNearSweep", shards=16), dict(run="TestBig", shards=8)], timeout=3000, fuzztime=180),
     ),
     "C14": dict(
-        pkg="c14",
-        technique="differential property-based testing (rapid) against an independent T.87 decoder, cross-package metamorphic relations, and the Annex H.3 vector",
+        pkg="c14", fuzz=dict(target="FuzzProp"),
+        technique="differential property-based testing (rapid) against an independent T.87 decoder, cross-package metamorphic relations, and the Annex H.3 vector; thorough adds coverage-guided native Go fuzzing of the same generator and check (rapid.MakeFuzz)",
         level_text="Exploration: library streams (lossless and near-lossless, every precision, every NEAR visited) are decoded by the independent T.87 decoder and compared with the source / the library decoder; lossless vs NEAR=0 encoders compared bytewise, decoders cross-fed; finite H.3 vector checked completely.",
         level_note="Trusts harness/ref/t87 (written from the standard, pinned by the H.3 vector; RItype=0 for sample-interleaved run interruptions as in the HP reference/CharLS).",
         rule=("rapid-generated (image, package/NEAR) as in C03/C07; sweep over all 2250 (P,NEAR) pairs; H.3 vector. Non-trivial: image has two equal horizontal neighbours or a jump >= 2^(P-1). "
               "Distinct = hash of the case."),
         assumptions=COMMON_ASSUME + ["harness/ref/t87 implements the T.87 decoding procedure correctly (H.3 vector self-test on every run)"],
         quick=dict(shards=16, checks=1000, extra=["TestQuota", "TestH3", dict(run="TestNearSweep", shards=4), dict(run="TestBig", shards=8)], timeout=600),
-        thorough=dict(shards=16, checks=20000, extra=["TestQuota", "TestH3", dict(run="TestNearSweep", shards=16), dict(run="TestBig", shards=8)], timeout=3000),
+        thorough=dict(shards=16, checks=80000, extra=["TestQuota", "TestH3", dict(run="TestNearSweep", shards=16), dict(run="TestBig", shards=8)], timeout=3000, fuzztime=180),
     ),
     "C04": dict(
-        pkg="c04",
-        technique="property-based round-trip testing (rapid) over the reversible single-tile configuration product, plus a deterministic size grid",
+        pkg="c04", fuzz=dict(target="FuzzProp"),
+        technique="property-based round-trip testing (rapid) over the reversible single-tile configuration product, plus a deterministic size grid; thorough adds coverage-guided native Go fuzzing of the same generator and check (rapid.MakeFuzz)",
         level_text="Exploration: seeded rapid generators over image (1-4 components, precision 1-16, signed/unsigned, noise-dominant content) x configuration (levels 0-6, code-block sizes, precinct sizes, five progression orders, 1-6 layers, MCT); thorough adds the 1..40 x 1..40 size grid.",
         level_note="Round trip through the library's own encoder/decoder (stream validity is C16); trusts the Go runtime.",
         rule=("rapid-generated (image, reversible single-tile configuration). Non-trivial: >= 2 distinct sample values and layers*(levels+1)*components >= 2 packets. "
               "Labels empty-subband / image<codeblock are computed from the drawn geometry, body-contains-FF from the emitted tile-part bodies via the independent walker. Distinct = hash of the case."),
         assumptions=COMMON_ASSUME,
         quick=dict(shards=16, checks=1200, extra=["TestQuota", dict(run="TestBig", shards=8)], timeout=900),
-        thorough=dict(shards=16, checks=3000, extra=["TestQuota", dict(run="TestGrid", shards=16), dict(run="TestBig", shards=8)], timeout=3400),
+        thorough=dict(shards=16, checks=15000, extra=["TestQuota", dict(run="TestGrid", shards=16), dict(run="TestBig", shards=8)], timeout=3400, fuzztime=180),
     ),
     "C05": dict(
-        pkg="c05",
-        technique="property-based round-trip testing (rapid) through the registered DICOM codecs over generated parameter objects, plus a deterministic size grid",
+        pkg="c05", fuzz=dict(target="FuzzProp"),
+        technique="property-based round-trip testing (rapid) through the registered DICOM codecs over generated parameter objects, plus a deterministic size grid; thorough adds coverage-guided native Go fuzzing of the same generator and check (rapid.MakeFuzz)",
         level_text="Exploration: seeded rapid generators over FrameInfo (8/16 bits allocated, BitsStored 2-16, 1/3 samples, signedness, 1-2 frames) x parameter objects (nil, typed, generic) constructed inside the property's precondition (final lossless layer kept, or no rate target); thorough adds the 40x80 size grid.",
         level_note="Round trip through the registry codecs .90 and .92; trusts the Go runtime.",
         rule=("rapid-generated (frames, FrameInfo, parameter object). Non-trivial: a rate target is in effect (Rate>0 or TargetRatio>0, so the PCRD path runs) and the image has >= 2 distinct values. "
               "Distinct = hash of the case."),
         assumptions=COMMON_ASSUME,
         quick=dict(shards=16, checks=1000, extra=["TestQuota", dict(run="TestBig", shards=8)], timeout=900),
-        thorough=dict(shards=16, checks=2500, extra=["TestQuota", dict(run="TestGrid", shards=16), dict(run="TestBig", shards=8)], timeout=3400),
+        thorough=dict(shards=16, checks=20000, extra=["TestQuota", dict(run="TestGrid", shards=16), dict(run="TestBig", shards=8)], timeout=3400, fuzztime=180),
     ),
     "C19": dict(
-        pkg="c19",
-        technique="property-based round-trip testing (rapid) over tile grids",
+        pkg="c19", fuzz=dict(target="FuzzProp"),
+        technique="property-based round-trip testing (rapid) over tile grids; thorough adds coverage-guided native Go fuzzing of the same generator and check (rapid.MakeFuzz)",
         level_text="Exploration: seeded rapid generators over image x tile size drawn from shape classes (power of two, odd, even, last tile one sample wide, smaller than a code-block, arbitrary; 1-16 tiles per axis) x components {1,3} x precision {8,12,16} x levels 0-5 x layers 1-3, including global rate allocation with a final lossless layer.",
         level_note="Round trip through the library's own encoder/decoder; trusts the Go runtime.",
         rule=("rapid-generated (image, tiled reversible configuration); noise-dominant content. Non-trivial: at least 2 tiles. Distinct = hash of the case. "
               "Labels (odd-tile-origin, partial-right/bottom, tile<codeblock, tiles-in-row>=3, global-rd) are computed from the drawn geometry."),
         assumptions=COMMON_ASSUME,
         quick=dict(shards=16, checks=300, extra=[], timeout=900),
-        thorough=dict(shards=16, checks=2500, extra=[], timeout=3400),
+        thorough=dict(shards=16, checks=17500, extra=[], timeout=3400, fuzztime=180),
     ),
     "C20": dict(
-        pkg="c20",
-        technique="property-based round-trip testing (rapid) at the exported layer APIs (MQ coder, EBCOT T1, 5/3 DWT, RCT) plus exhaustive enumeration of short MQ sequences and short 1-D signals",
+        pkg="c20", fuzz=dict(target="FuzzProp"),
+        technique="property-based round-trip testing (rapid) at the exported layer APIs (MQ coder, EBCOT T1, 5/3 DWT, RCT) plus exhaustive enumeration of short MQ sequences and short 1-D signals; thorough adds coverage-guided native Go fuzzing of the same generator and check (rapid.MakeFuzz)",
         level_text="Exploration: MQ sequences up to 10^5 symbols over 1-19 contexts with per-context bias and long runs; T1 blocks 1x1..64x64, four orientations, all 64 style combinations, magnitudes up to 2^24, decoded through every public decode route the library's tier-2 uses; DWT sizes 1..257, levels 0-8, origins 0-7; RCT triples within +-2^28; exhaustive small sub-domains.",
         level_note="A T1 block counts as reproduced if any of the three public decode routes returns it exactly (the harness demands nothing tier-2 could not supply). Trusts the Go runtime.",
         rule=("rapid-generated experiments of four kinds. Non-trivial: MQ - >= 64 symbols and >= 1 output byte 0xFF; T1 - >= 2 bit-planes and (height > 4 or style != 0); "
               "DWT - levels >= 1 and min(w,h) >= 2; RCT - >= 1 triple. Distinct = hash of the case."),
         assumptions=COMMON_ASSUME,
         quick=dict(shards=16, checks=600, extra=["TestStyles", "TestExhaustive", dict(run="TestRaw", shards=8)], timeout=900),
-        thorough=dict(shards=16, checks=12000, extra=["TestStyles", "TestExhaustive", dict(run="TestRaw", shards=16)], timeout=3400),
+        thorough=dict(shards=16, checks=72000, extra=["TestStyles", "TestExhaustive", dict(run="TestRaw", shards=16)], timeout=3400, fuzztime=180),
     ),
     "C12": dict(
-        pkg="c12",
-        technique="property-based testing (rapid) with a per-sample error-bound oracle computed from the QCD step sizes parsed from the emitted stream and exact L1 synthesis gains of an independent inverse 9/7 transform",
+        pkg="c12", fuzz=dict(target="FuzzProp"),
+        technique="property-based testing (rapid) with a per-sample error-bound oracle computed from the QCD step sizes parsed from the emitted stream and exact L1 synthesis gains of an independent inverse 9/7 transform; thorough adds coverage-guided native Go fuzzing of the same generator and check (rapid.MakeFuzz)",
         level_text="Exploration: seeded rapid generators over images (<= 96x96, 1/3 components, precision 8/12/16, signed or not) x irreversible single-tile configurations (levels 0-6, quality 1-100, code-blocks 16/32/64, no rate target); the bound is the statement's: sum over sub-bands of declared step x exact synthesis gain, through |inverse ICT|, plus a fixed allowance.",
         level_note="Trusts harness/ref/dwt97 (T.800 Annex F lifting, self-tested for perfect reconstruction and nominal gains) and the independent QCD/COD walker. Closed-form gains for sizes above 96 are not implemented; sizes are capped at 96.",
         rule=("rapid-generated (image, irreversible configuration). Non-trivial: some declared step size exceeds 1 (quantiser active) and the image is not constant. Distinct = hash of the case. "
               "Label tightness>N% records how close the observed error came to the bound."),
         assumptions=COMMON_ASSUME + ["the rounding allowance 2 + 2^(P-13) covers single-precision arithmetic of the transform chain"],
         quick=dict(shards=16, checks=600, extra=[], timeout=900),
-        thorough=dict(shards=16, checks=1500, extra=[], timeout=3400),
+        thorough=dict(shards=16, checks=45000, extra=[], timeout=3400, fuzztime=180),
     ),
     "C06": dict(
-        pkg="c06",
-        technique="property-based round-trip testing (rapid) through the registered HTJ2K lossless codecs, plus complete enumeration of the bundled third-party codestreams",
+        pkg="c06", fuzz=dict(target="FuzzProp"),
+        technique="property-based round-trip testing (rapid) through the registered HTJ2K lossless codecs, plus complete enumeration of the bundled third-party codestreams; thorough adds coverage-guided native Go fuzzing of the same generator and check (rapid.MakeFuzz)",
         level_text="Exploration: seeded rapid generators over FrameInfo (8/16 bits allocated, BitsStored <= allocated, 1/3 samples, signedness) x htj2k.Parameters (block 4..64, levels 0-6; nil / typed / generic) x content (all-zero blocks, sparse, full-scale noise); the 14 OpenJPH/fo-dicom fixtures are decoded and compared with their raw sources on every run; thorough adds the 80x80 size grid.",
         level_note="Round trip through the registry codecs .201/.202; fixtures are the finite set in test-data/htj2k/interop. Trusts the Go runtime.",
         rule=("rapid-generated (frame, FrameInfo, parameters). Non-trivial: at least one non-zero sample and >= 4 pixels (an HT code-block with a non-zero sample and >= 2 quads). Distinct = hash of the case."),
         assumptions=COMMON_ASSUME,
         quick=dict(shards=16, checks=250, extra=["TestQuota", "TestFixtures", dict(run="TestBig", shards=8)], timeout=900),
-        thorough=dict(shards=16, checks=2000, extra=["TestQuota", "TestFixtures", dict(run="TestGrid", shards=16), dict(run="TestBig", shards=8)], timeout=3400),
+        thorough=dict(shards=16, checks=6000, extra=["TestQuota", "TestFixtures", dict(run="TestGrid", shards=16), dict(run="TestBig", shards=8)], timeout=3400, fuzztime=180),
     ),
     "C11": dict(
-        pkg="c11",
-        technique="property-based testing (rapid) with a per-sample error-bound oracle computed from the DQT tables parsed from the emitted stream",
+        pkg="c11", fuzz=dict(target="FuzzProp"),
+        technique="property-based testing (rapid) with a per-sample error-bound oracle computed from the DQT tables parsed from the emitted stream; thorough adds coverage-guided native Go fuzzing of the same generator and check (rapid.MakeFuzz)",
         level_text="Exploration: seeded rapid generators over images (8-bit 1/3 components, 12-bit greyscale; noise, Nyquist checkerboards, black/white extremes) x quality 1..100 x Baseline/Extended; a deterministic sweep over every size 1..33 x 1..33; a quota of 384..512-squared noise images (the Huffman length-limiting regime); the bound is the statement's (C(u)C(v)-weighted eighth of the table sum, through |YCbCr->RGB|, plus 2 / 5).",
         level_note="DQT, SOF and sampling factors are read by the independent JPEG walker; trusts the Go runtime.",
         rule=("rapid-generated (image, quality, codec). Non-trivial: image not constant, entropy-coded data longer than 2 bytes per block (AC coefficients present), and >= 2 blocks or a partial block. Distinct = hash of the case."),
         assumptions=COMMON_ASSUME,
         quick=dict(shards=16, checks=400, extra=[dict(run="TestSizes", shards=4), dict(run="TestLarge", shards=8)], timeout=900),
-        thorough=dict(shards=16, checks=8000, extra=[dict(run="TestSizes", shards=16), dict(run="TestLarge", shards=16)], timeout=3400),
+        thorough=dict(shards=16, checks=64000, extra=[dict(run="TestSizes", shards=16), dict(run="TestLarge", shards=16)], timeout=3400, fuzztime=180),
     ),
     "C15": dict(
-        pkg="c15",
-        technique="differential property-based testing (rapid) against Go's image/jpeg (decoder and encoder) and an independent reference baseline encoder, both directions",
+        pkg="c15", fuzz=dict(target="FuzzProp"),
+        technique="differential property-based testing (rapid) against Go's image/jpeg (decoder and encoder) and an independent reference baseline encoder, both directions; thorough adds coverage-guided native Go fuzzing of the same generator and check (rapid.MakeFuzz)",
         level_text="Exploration: direction A decodes every library Baseline/Extended 8-bit stream with image/jpeg and compares with the library decoder; direction B feeds streams from image/jpeg.Encode (grey, 4:2:0) and from ref/dctenc (4:4:4, 4:2:2, 4:2:0, 4:4:0; standard/optimised Huffman; restart intervals; JFIF/Adobe/COM segments; component ids 1..3 / 0..2) to both library decoders; all sizes 1..33 x 1..33 swept.",
         level_note="Trusts image/jpeg as the independent implementation and ref/dctenc (every reference stream is first accepted by image/jpeg, else the run is a harness fault).",
         rule=("rapid-generated (image, direction, codec, quality, stream layout). Non-trivial: width or height not a multiple of the MCU size, or >= 2 MCUs. Distinct = hash of the case."),
         assumptions=COMMON_ASSUME + ["Go's image/jpeg is a conformant baseline decoder/encoder"],
         quick=dict(shards=16, checks=300, extra=[dict(run="TestSizes", shards=4), dict(run="TestBig", shards=8)], timeout=900),
-        thorough=dict(shards=16, checks=6000, extra=[dict(run="TestSizes", shards=16), dict(run="TestBig", shards=8)], timeout=3400),
+        thorough=dict(shards=16, checks=90000, extra=[dict(run="TestSizes", shards=16), dict(run="TestBig", shards=8)], timeout=3400, fuzztime=180),
     ),
     "C16": dict(
-        pkg="c16",
-        technique="property-based testing (rapid) with strict independent marker-segment walkers and an independent T.800 Annex B packet reader as validity predicates over every encoder's output",
+        pkg="c16", fuzz=dict(target="FuzzProp"),
+        technique="property-based testing (rapid) with strict independent marker-segment walkers and an independent T.800 Annex B packet reader as validity predicates over every encoder's output; thorough adds coverage-guided native Go fuzzing of the same generator and check (rapid.MakeFuzz)",
         level_text="Exploration: seeded rapid generators over all encoders (Baseline, Extended 8/12, Lossless 0-7, SV1, JPEG-LS lossless/near, JPEG 2000 reversible/irreversible/tiled/layered/all progressions, HTJ2K .201/.202/.203, RLE) with noise-dominant content, dimensions >= 256 and 65535 strips, up to 64 tiles; each stream is walked strictly and its header fields compared with the arguments; every JPEG 2000 / HTJ2K tile is additionally split into packets by an independent T.800 Annex B reader (tag trees, pass counts, Lblock, bit stuffing, terminal 0xFF rule) and must divide exactly; a quota of many-layer noise frames (about 60 packets each) makes packet headers ending in 0xFF occur.",
         level_note="Trusts harness/ref/walk (JPEG/JPEG-LS/JPEG 2000 walkers, packet reader validated on the 14 third-party OpenJPH streams of /repo/test-data) and ref/rleref; they are written from the standards and share no code with /repo. The packet reader does not model streams with more than one precinct above resolution 0 (the library's precinct layout is not T.800's) and is inconclusive on multi-tile streams that divide under neither canvas nor tile-local anchoring (open findings KF-C19-1/2).",
         rule=("rapid-generated (encoder, image, parameters). Non-trivial: the entropy-coded part contains at least one 0xFF byte (stuffing / marker avoidance exercised) or the codestream has >= 2 tile-parts (RLE: always). Distinct = hash of the case."),
         assumptions=COMMON_ASSUME,
         quick=dict(shards=16, checks=300, extra=[dict(run="TestPackets", shards=16)], timeout=900),
-        thorough=dict(shards=16, checks=6000, extra=[dict(run="TestPackets", shards=16)], timeout=3400),
+        thorough=dict(shards=16, checks=48000, extra=[dict(run="TestPackets", shards=16)], timeout=3400, fuzztime=180),
     ),
     "C10": dict(
         pkg="c10",
@@ -184,17 +184,17 @@ PROPS = {
         rule=("rapid-generated (syntax, FrameInfo, pool of frames, history of actions). Non-trivial: the pool holds >= 2 different frames and the history contains an object-reuse action or a sequence of length >= 2. Distinct = hash of the case."),
         assumptions=COMMON_ASSUME,
         quick=dict(shards=16, checks=120, extra=["TestQuota"], timeout=900),
-        thorough=dict(shards=16, checks=2000, extra=["TestQuota"], timeout=3400),
+        thorough=dict(shards=16, checks=12000, extra=["TestQuota"], timeout=3400),
     ),
     "C17": dict(
-        pkg="c17",
-        technique="enumerated argument lattice plus property-based sampling (rapid) of encoder arguments around every documented limit, with a reject/accept oracle and decode-back of every returned stream",
+        pkg="c17", fuzz=dict(target="FuzzProp"),
+        technique="enumerated argument lattice plus property-based sampling (rapid) of encoder arguments around every documented limit, with a reject/accept oracle and decode-back of every returned stream; thorough adds coverage-guided native Go fuzzing of the same generator and check (rapid.MakeFuzz)",
         level_text="Exploration: the full small-dimension lattice (dimensions -1..3, components 0..5, depth set, quality/NEAR/predictor sets, buffer lengths 0..needed+1) of every package-level encoder is enumerated; dimensions around 2^15 and 2^16, JPEG 2000 level/code-block limits, nil parameters, and codec-level FrameInfo/Parameters/frames combinations (nil, foreign, wrongly typed, out of range, zero frames, empty frame, nil FrameInfo) are sampled.",
         level_note="An encoder must return an error for the argument classes the statement lists, must never panic, and any stream it returns must decode to / declare exactly the requested geometry. Arguments the statement does not list are only subject to the last two.",
         rule=("enumerated + rapid-generated argument tuples. Every case has at least one argument at or beyond a limit or is a lattice point; non-trivial = all (each tuple is a distinct call). Distinct = hash of the case."),
         assumptions=COMMON_ASSUME,
         quick=dict(shards=16, checks=800, extra=[dict(run="TestLattice", shards=8)], timeout=900),
-        thorough=dict(shards=16, checks=15000, extra=[dict(run="TestLattice", shards=16)], timeout=3400),
+        thorough=dict(shards=16, checks=90000, extra=[dict(run="TestLattice", shards=16)], timeout=3400, fuzztime=180),
     ),
     "C18": dict(
         pkg="c18", race=True,
@@ -204,7 +204,7 @@ PROPS = {
         rule=("rapid-generated concurrent workloads. Non-trivial: at least two jobs on the same codec instance measurably overlapped in time (start/end stamps). Distinct = hash of the case."),
         assumptions=COMMON_ASSUME + ["the Go race detector reports every data race among the executed, conflicting accesses"],
         quick=dict(shards=8, checks=25, extra=["TestSharedParams", dict(run="TestColdStart", shards=17)], timeout=900, parallel=8, gomaxprocs=16),
-        thorough=dict(shards=8, checks=250, extra=["TestSharedParams", dict(run="TestColdStart", shards=17)], timeout=3400, parallel=8, gomaxprocs=16),
+        thorough=dict(shards=8, checks=600, extra=["TestSharedParams", dict(run="TestColdStart", shards=17)], timeout=3400, parallel=8, gomaxprocs=16),
     ),
     "C08": dict(
         pkg="c0809", env={"VERIF_PROP": "C08"}, fuzz=dict(target="FuzzDecode"),
@@ -215,7 +215,7 @@ PROPS = {
         rule=("rapid-generated and enumerated (entry point, byte string[, FrameInfo]). Non-trivial: the input still starts with the family's start marker (it reaches real parsing) and differs from its valid parent. Distinct = hash of the case."),
         assumptions=COMMON_ASSUME,
         quick=dict(shards=16, checks=1500, extra=["TestValid", dict(run="TestTruncations", shards=8), dict(run="TestHeaderBytes", shards=8), dict(run="TestRLEGrammar", shards=4), dict(run="TestHeaders", shards=16)], timeout=900, parallel=16),
-        thorough=dict(shards=16, checks=60000, extra=["TestValid", dict(run="TestTruncations", shards=8), dict(run="TestHeaderBytes", shards=16), dict(run="TestRLEGrammar", shards=8), dict(run="TestHeaders", shards=16)], timeout=3400, fuzztime=600),
+        thorough=dict(shards=16, checks=30000, extra=["TestValid", dict(run="TestTruncations", shards=8), dict(run="TestHeaderBytes", shards=16), dict(run="TestRLEGrammar", shards=8), dict(run="TestHeaders", shards=16)], timeout=3400, fuzztime=600),
     ),
     "C09": dict(
         pkg="c0809", env={"VERIF_PROP": "C09"},
@@ -226,6 +226,6 @@ PROPS = {
         rule=("rapid-generated and enumerated (entry point, byte string[, FrameInfo]). Non-trivial: the input starts with the family's start marker, differs from its valid parent and the pre-parser found a frame header (the budget formula was exercised). Distinct = hash of the case."),
         assumptions=COMMON_ASSUME + ["getrusage(RUSAGE_THREAD) of the locked decoding thread is a lower bound of the call's wall time"],
         quick=dict(shards=16, checks=1500, extra=["TestValid", dict(run="TestTruncations", shards=8), dict(run="TestHeaderBytes", shards=8), dict(run="TestRLEGrammar", shards=4), dict(run="TestHeaders", shards=16)], timeout=900, parallel=16),
-        thorough=dict(shards=16, checks=60000, extra=["TestValid", dict(run="TestTruncations", shards=8), dict(run="TestHeaderBytes", shards=16), dict(run="TestRLEGrammar", shards=8), dict(run="TestHeaders", shards=16)], timeout=3400),
+        thorough=dict(shards=16, checks=30000, extra=["TestValid", dict(run="TestTruncations", shards=8), dict(run="TestHeaderBytes", shards=16), dict(run="TestRLEGrammar", shards=8), dict(run="TestHeaders", shards=16)], timeout=3400),
     ),
 }
